@@ -265,6 +265,8 @@ type World struct {
 	// TxVersion, when != 0, is the version of the transactions added next
 	// (default 1; BIP68 relative locks apply from version 2).
 	TxVersion int32
+	// TxLockTime is the lock time of the transactions added next
+	TxLockTime uint32
 }
 
 // NewWorld starts an empty universe.
@@ -314,6 +316,7 @@ func (w *World) Add(name string, ins []I, nOut int, outKind int, fee int64) *UTx
 	if w.TxVersion != 0 {
 		tx.Version = w.TxVersion
 	}
+	tx.LockTime = w.TxLockTime
 	ref := &refpool.Tx{Name: name, Fee: fee}
 	var total int64
 	prevs := map[wire.OutPoint]*wire.TxOut{}
@@ -574,6 +577,13 @@ func LockWorld(b *Base) *World {
 	w.Add("LD", []I{{"LP:1", 0}}, 2, KTrue, 2500)
 	w.Add("LE", []I{{"LD:0", 2}}, 2, KTrue, 1500)
 	w.TxVersion = 0
+	// LT: a height lock time far in the future with a non-final sequence number:
+	// not final in the next block (nor any block of the horizon); LF carries the
+	// same lock time but final sequence numbers, which disables it
+	w.TxLockTime = 400_000
+	w.Add("LT", []I{{"K3", NoRBF}}, 2, KTrue, 2000)
+	w.Add("LF", []I{{"K4", Final}}, 2, KTrue, 2000)
+	w.TxLockTime = 0
 	w.MineSets = [][]string{{"LP"}, {"LP", "LD"}}
 	w.ReorgSets = [][]string{{}}
 	return w.Seal()
